@@ -136,6 +136,9 @@ pub struct EnvConfig {
     /// faults that may be injected at any scheduling point (each at most once)
     pub faults: Vec<FaultKind>,
     /// deliver exactly this many server bytes, then make the fault visible (crash-point sweep)
+    /// every write call takes at most this many bytes (like a socket with a send buffer of that
+    /// size and a fast peer: no would-block, but never everything at once)
+    pub write_chunk: Option<usize>,
     pub crash_after_inbound: Option<(usize, FaultKind)>,
     /// the crash becomes visible together with the last byte before it (same read pass, no
     /// would-block in between) instead of as a separate event
@@ -169,6 +172,7 @@ impl Default for EnvConfig {
             force_cuts: Vec::new(),
             stall_on_seal: false,
             faults: vec![],
+            write_chunk: None,
             crash_after_inbound: None,
             crash_with_last_byte: false,
             fail_write_call: None,
@@ -1072,6 +1076,9 @@ impl World {
             Some(c) => buf.len().min(c),
             None => buf.len(),
         };
+        if let Some(chunk) = st.cfg.write_chunk {
+            n = n.min(chunk.max(1));
+        }
         if st.cfg.write_cuts && st.tr.capacity.is_none() && buf.len() > 1 {
             let mut menu = vec![buf.len()];
             for c in [1usize, buf.len() - 1, 8, 3, 7, buf.len() / 2] {
